@@ -47,25 +47,78 @@ def check(ctx):
     witness.check_static_unit(ctx, 'C13.S4', os.path.join(extract.VERIF, 'witness', 's_select.cpp'), 'queue list selection')
 
 
+def guarded_gets(ctx, tu, rule):
+    """Necessary: a slot's content is read (get()) only where the same slot was established non-empty - the ordered list also holds
+    recycled (cleared) slots while it serves as free list / idle list, and get() on a cleared slot reads a destroyed event."""
+    from .listrules import edge_dominates
+    n = 0
+    for f in tu.fns:
+        if not (f.outermost().cls == 'OrderedQueueList' or f.outermost().skey.startswith('OrderedQueueList::')):
+            continue
+        for c in f.calls():
+            cal = f.callee(c)
+            if not cal or cal.get('name') != 'get' or 'Buffered' not in (cal.get('cls') or ''):
+                continue
+            obj = f.call_obj(c)
+            po = path(f, obj) if obj else ()
+            ok = False
+            for bid, blk in f.blocks.items():
+                cond = blk.get('cond')
+                if not cond or len(blk['succ']) != 2:
+                    continue
+                x = f.strip_all_casts(cond)
+                neg = False
+                while f.nodes[x]['cls'] == 'UnaryOperator' and f.nodes[x].get('op') == '!':
+                    neg = not neg
+                    x = f.strip_all_casts(f.kids(x)[0])
+                if f.is_call(x) and (f.callee(x) or {}).get('name') == 'empty' and f.call_obj(x) and path(f, f.call_obj(x)) == po:
+                    if edge_dominates(f, bid, 'true' if neg else 'false', f.pos(c)):
+                        ok = True
+            n += 1
+            ctx.ob(rule, f, 'get() is applied only to a slot established non-empty on every path to the call', ok,
+                   detail='%s.get() at %s is not dominated by the false edge of %s.empty()' % (pstr(po), f.nloc(c), pstr(po)),
+                   where=f.nloc(c), key_detail='guarded get')
+    return n
+
+
 def check_tu(ctx, tu):
+    guarded_gets(ctx, tu, 'C13.S3')
     for f in tu.fns_named('OrderedQueueList::splice'):
-        base = [n for n in f.calls() if (f.callee_key(n) or '') == 'std::list::splice']
+        base = [n for n in f.calls() if (f.callee_key(n) or '').startswith('std::list::') and (f.callee(n) or {}).get('name') in
+                ('splice', 'merge', 'insert', 'emplace', 'push_back', 'push_front', 'emplace_back', 'emplace_front')]
         sorts = [n for n in f.calls() if (f.callee_key(n) or '') == 'OrderedQueueList::doSort']
-        ok = len(base) == 1 and len(sorts) >= 1
-        if ok:
-            ok = any(f.pos_postdominates(f.pos(s), (f.entry, 0)) and f.pos_dominates(f.pos(base[0]), f.pos(s)) and f.pos(s) != f.pos(base[0]) for s in sorts)
-            # the base splice forwards this overload's own arguments, in order, onto *this
-            want = [p['id'] for p in f.params]
+
+        def arg_roots(call):
             got = []
-            for a in f.call_args(base[0]):
+            for a in f.call_args(call):
                 x = f.strip_all_casts(a)
                 while f.is_construct(x) and len(f.nodes[x].get('args', [])) == 1:
                     x = f.strip_all_casts(f.nodes[x]['args'][0])
                 got.append(root_var_id(path(f, x, resolve_refs=False)))
-            objp = path(f, f.call_obj(base[0])) if f.call_obj(base[0]) else ()
-            ok = ok and got == want and objp == ('this',)
-        ctx.ob('C13.S1', f, 'splice moves the elements with the base splice (own arguments) and then sorts, on every path', ok,
-               detail='base splice calls: %d, doSort calls: %d' % (len(base), len(sorts)))
+            return got
+        # (a) necessary for the whole-list overload: the queue puts declined events back with splice(begin(), ...) and appends with
+        #     splice(end(), ...); among equal keys the position decides the order, so the position parameter has to reach the insertion
+        if len(f.params) == 2:
+            pos_id = f.params[0]['id']
+            used = any(pos_id in arg_roots(b) for b in base)
+            ctx.ob('C13.S1', f, 'the position parameter reaches the insertion (it orders the inserted elements among equal keys)', used,
+                   detail='`%s` is not passed to any inserting base member (%s): put-back events would lose their place ahead of newer equal events'
+                          % (f.params[0].get('name', 'pos'), ', '.join(sorted({short(f.callee_key(b)) for b in base})) or 'none'),
+                   key_detail='position used')
+        # (b) the recognised idiom: base splice with the overload's own arguments, then the stable sort on every path. Another way of
+        #     keeping the list sorted (e.g. a placement walk) is not modelled: reported as analysis-broken, never as a violation.
+        own = [b for b in base if (f.callee(b) or {}).get('name') == 'splice' and arg_roots(b) == [p['id'] for p in f.params]
+               and (path(f, f.call_obj(b)) if f.call_obj(b) else ()) == ('this',)]
+        if len(own) == 1 and len(base) == 1:
+            ok = any(f.pos_postdominates(f.pos(s_), (f.entry, 0)) and f.pos_dominates(f.pos(own[0]), f.pos(s_)) and f.pos(s_) != f.pos(own[0]) for s_ in sorts)
+            ctx.ob('C13.S1', f, 'after the base splice the list is sorted on every path', ok,
+                   detail='base splice at %s, doSort calls: %d (none post-dominating the splice)' % (f.nloc(own[0]), len(sorts)),
+                   key_detail='splice then sort')
+        elif len(f.params) == 2 and base and not any(f.params[0]['id'] in arg_roots(b) for b in base):
+            pass        # already a violation of (a)
+        else:
+            ctx.broken_later('C13.S1: %s keeps the list ordered by an idiom the rule does not model (inserting calls: %s) - '
+                             'extend check_tu before trusting a verdict' % (f.pattern(), ', '.join(sorted({short(f.callee_key(b)) for b in base})) or 'none'))
     # public insertion points of the class: any method other than splice that adds elements must sort too
     for f in tu.fns:
         if f.cls == 'OrderedQueueList' and f.kind == 'method' and f.name not in ('splice', 'doSort'):
